@@ -312,6 +312,19 @@ def replay (j : Json) : R Verdict := do
       if allStarts.length != n || a + rj != n then
         pf := ("C03", s!"budget {n}, nothing else ended the run, but {allStarts.length} evaluations were started and the report counts {a} completed + {rj} rejected") :: pf
   | _, _ => pure ()
+  -- C04 (target): a run that returns a report although nobody asked it to stop, nothing failed and its budget is not
+  -- used up can only have ended by its target: then the best-seen objective is at or below the target
+  match cfg.target, retFinal.getObjVal? "ok" with
+  | some t, .ok okj =>
+    let a := (fieldD okj "acc").getNat?.toOption.getD 0
+    let rj := (fieldD okj "rej").getNat?.toOption.getD 0
+    let budgetLeft := match cfg.maxEval with | some n => decide (a + rj < n) | none => true
+    match (fieldD okj "best").getInt?.toOption with
+    | some b =>
+      if stopRound.isNone && budgetLeft && !(F64.le (.fin b) t) then
+        pf := ("C04", s!"the run returned as target-terminated (no stop request, no failure, budget not used up) with a best-seen objective (order code {b}) ABOVE the target {repr t}") :: pf
+    | none => pure ()
+  | _, _ => pure ()
   -- C02 (sample size > 1): the reported objective is the mean of exactly sample-size returns of ONE individual
   match retFinal.getObjVal? "ok" with
   | .ok okj =>
